@@ -15,6 +15,7 @@ import (
 	"encoding/json"
 	"fmt"
 	"os"
+	"reflect"
 	"strings"
 	"unicode/utf8"
 
@@ -285,6 +286,13 @@ func (m *mon) valueCase(cd *codec, r *run.Rng) {
 	m.c.WAL(cs)
 	ok := m.checkValue(cd, v, cs)
 	m.c.Seen("value_types", cd.name)
+	if r.Chance(1, 16) {
+		// harness self-check: the witness form must rebuild the same value
+		if back, err := rebuild(cd, cs.Tree); err != nil || dump(back) != dump(v) {
+			m.c.Inconclusive(fmt.Sprintf("harness: witness of a %s (%s) does not rebuild the value: %v", cd.name, g.shapeStr(), err))
+		}
+		m.c.Stat("witnesses_rebuilt", 1)
+	}
 	if l, isLog := v.(*types.ChangeLog); isLog {
 		m.c.Seen("change_log_shapes", g.shapeStr())
 		_ = l
@@ -411,6 +419,26 @@ func runAll(c *run.Ctx) {
 	}
 }
 
+// rebuild materialises a value from its witness tree (through JSON, as a replay file would).
+func rebuild(cd *codec, tree interface{}) (interface{}, error) {
+	js, err := json.Marshal(tree)
+	if err != nil {
+		return nil, err
+	}
+	var generic interface{}
+	if err := json.Unmarshal(js, &generic); err != nil {
+		return nil, err
+	}
+	p := reflect.New(reflect.TypeOf(cd.fresh())).Elem() // a nil *T
+	if err := fromTree(generic, p); err != nil {
+		return nil, err
+	}
+	if p.IsNil() { // the value itself was a nil slice / map
+		p.Set(reflect.New(p.Type().Elem()))
+	}
+	return p.Interface(), nil
+}
+
 func replay(c *run.Ctx, raw json.RawMessage) {
 	fx.Quiet()
 	initCodecs()
@@ -429,12 +457,12 @@ func replay(c *run.Ctx, raw json.RawMessage) {
 			c.Inconclusive("unknown type " + cs.Type)
 			return
 		}
-		p := cd.zeroPtr()
-		if err := fromTree(cs.Tree, p.Elem()); err != nil {
+		v, err := rebuild(cd, cs.Tree)
+		if err != nil {
 			c.Inconclusive("cannot rebuild the value: " + err.Error())
 			return
 		}
-		m.checkValue(cd, p.Interface(), &cs)
+		m.checkValue(cd, v, &cs)
 	case "canon":
 		t := targetByName[cs.Type]
 		b, err := hex.DecodeString(cs.Hex)
